@@ -407,7 +407,7 @@ EXTRA = {"C17": [utxwrap], "C12": [stallclose(1), stallclose(2)]}
 SCRIPTS = {}   # instance name -> (script, script of the second generation, inbound messages), as TLC printed them
 
 
-def conformance(ctx, binary, names, per):
+def conformance(ctx, binary, names, per, corrupt=False):
     """Code -> model: seeded schedules of the explorer over the scripts of the bounded instances, restricted to the
     vocabulary of the specification, validated step by step against the actions of MqttClient (spec/ClientTrace.tla)."""
     rnd = random.Random(ctx.seed * 31 + vlib.stable_hash(ctx.prop))
@@ -439,9 +439,13 @@ def conformance(ctx, binary, names, per):
             out = tp + ".conf"
             with open(out, "w") as o:
                 pending = None    # the last process step, waiting for the gate its process reaches next
+                nproc = [0]
                 def flush():
                     nonlocal pending
                     if pending is not None:
+                        nproc[0] += 1
+                        if corrupt and nproc[0] == 5:
+                            pending["at"] = "no.such.gate"    # self-test: a recorded gate is altered
                         o.write(json.dumps(pending, separators=(",", ":")) + "\n")
                         pending = None
                 for line in open(tp):
@@ -449,6 +453,7 @@ def conformance(ctx, binary, names, per):
                     k_ = e.get("e")
                     if k_ == "reset":
                         flush()
+                        nproc[0] = 0
                         o.write(json.dumps({"e": "reset", "case": e["case"]}) + "\n")
                     elif k_ == "step":
                         flush()
